@@ -1,10 +1,8 @@
-import Vorbis.Block.Dec
+import Vorbis.Block.Coherent
 namespace Vorbis.Block
 
 @[simp] theorem shr_zero (x : Int) : shr x 0 = x := by simp [shr]
 @[simp] theorem shl_zero (x : Int) : shl x 0 = x := by simp [shl]
-
-def adv (z : Sizes) (lW W : Bool) : Int := z.bs lW / 4 + z.bs W / 4
 
 theorem adv_nonneg (z : Sizes) (h0 : 0 ≤ z.bs0) (h1 : 0 ≤ z.bs1) (a b : Bool) : 0 ≤ adv z a b := by
   unfold adv Sizes.bs
